@@ -218,6 +218,9 @@ func scenarioC07(r *Run) {
 // the callback ids of the server.
 func scenarioC09(r *Run) {
 	cfg := srvCfg{Prop: "C09", MaxMsgs: 5, MaxBatch: 3, SeqIDs: true, ReplyShaped: true, Pushes: 4, Stops: 1, Cancels: 2, HoldP: 0.4, NoteP: 0.4, KMax: 3}
+	if r.Gen.Chance("manypushes", 0.12) {
+		cfg.Pushes = 12 // enough callbacks for a small id counter to wrap
+	}
 	cfg.ForcePush = r.Gen.Chance("forcepush", 0.85)
 	w := newSrvWorld(r, cfg)
 	// the connection may also end by a channel failure or by the peer going away early
